@@ -58,6 +58,27 @@ fn build_polygon(c: &Conc, pt: i32, ctor: &str, rings: &[(i32, Vec<AP>)]) -> Res
             }
             if r0.0 == 0 { one!(Outer) } else { one!(Inner) }
         }
+        "macro4" => {
+            // polygon! in its {x: .., y: ..} form, four vertices per ring, two rings (outer-declared, inner-declared)
+            let p = |r: &(i32, Vec<AP>), i: usize| r.1[i];
+            let (r0, r1) = (&rings[0], &rings[1]);
+            let (a, b, d, e) = (p(r0, 0), p(r0, 1), p(r0, 2), p(r0, 3));
+            let (f, g, h, i) = (p(r1, 0), p(r1, 1), p(r1, 2), p(r1, 3));
+            match pt {
+                5 => Shape::Polygon(shapefile::polygon! {
+                    Outer({x: c.x(a[0]), y: c.x(a[1])}, {x: c.x(b[0]), y: c.x(b[1])}, {x: c.x(d[0]), y: c.x(d[1])}, {x: c.x(e[0]), y: c.x(e[1])}),
+                    Inner({x: c.x(f[0]), y: c.x(f[1])}, {x: c.x(g[0]), y: c.x(g[1])}, {x: c.x(h[0]), y: c.x(h[1])}, {x: c.x(i[0]), y: c.x(i[1])})
+                }),
+                25 => Shape::PolygonM(shapefile::polygon! {
+                    Outer({x: c.x(a[0]), y: c.x(a[1]), m: c.z(a[3])}, {x: c.x(b[0]), y: c.x(b[1]), m: c.z(b[3])}, {x: c.x(d[0]), y: c.x(d[1]), m: c.z(d[3])}, {x: c.x(e[0]), y: c.x(e[1]), m: c.z(e[3])}),
+                    Inner({x: c.x(f[0]), y: c.x(f[1]), m: c.z(f[3])}, {x: c.x(g[0]), y: c.x(g[1]), m: c.z(g[3])}, {x: c.x(h[0]), y: c.x(h[1]), m: c.z(h[3])}, {x: c.x(i[0]), y: c.x(i[1]), m: c.z(i[3])})
+                }),
+                _ => Shape::PolygonZ(shapefile::polygon! {
+                    Outer({x: c.x(a[0]), y: c.x(a[1]), z: c.z(a[2]), m: c.z(a[3])}, {x: c.x(b[0]), y: c.x(b[1]), z: c.z(b[2]), m: c.z(b[3])}, {x: c.x(d[0]), y: c.x(d[1]), z: c.z(d[2]), m: c.z(d[3])}, {x: c.x(e[0]), y: c.x(e[1]), z: c.z(e[2]), m: c.z(e[3])}),
+                    Inner({x: c.x(f[0]), y: c.x(f[1]), z: c.z(f[2]), m: c.z(f[3])}, {x: c.x(g[0]), y: c.x(g[1]), z: c.z(g[2]), m: c.z(g[3])}, {x: c.x(h[0]), y: c.x(h[1]), z: c.z(h[2]), m: c.z(h[3])}, {x: c.x(i[0]), y: c.x(i[1]), z: c.z(i[2]), m: c.z(i[3])})
+                }),
+            }
+        }
         _ => panic!("ctor"),
     })
 }
@@ -199,6 +220,15 @@ pub fn run(a: &Args) {
         let nr = 1 + r.below(4);
         let rings: Vec<(i32, Vec<AP>)> = (0..nr).map(|_| (r.below(2) as i32, { let q = pool[r.below(pool.len())].clone(); let v = r.below(3) as u8; lift(pt, &q, v) })).collect();
         ring_event(&mut traces[i], &concs[i], pt, "with_rings", &rings);
+        // polygon! in struct form: two rings of four vertices, declared (outer, inner)
+        {
+            let g4 = grid_rings(4);
+            let q0 = g4[r.below(g4.len())].clone();
+            let q1 = g4[r.below(g4.len())].clone();
+            let v = r.below(3) as u8;
+            ring_event(&mut traces[i], &concs[i], pt, "macro4", &[(0, lift(pt, &q0, v)), (1, lift(pt, &q1, 0))]);
+            k += 1;
+        }
         let np = 1 + r.below(4);
         let patches: Vec<(i32, Vec<AP>)> = (0..np).map(|_| (r.below(6) as i32, { let q = pool[r.below(pool.len())].clone(); let v = r.below(3) as u8; lift(15, &q, v) })).collect();
         patch_event(&mut traces[i], &concs[i], "with_parts", &patches);
